@@ -219,6 +219,91 @@ def hyperbolic_artists(tier, rng, rep):
         rep.case(key=("dim", cls.__name__))
 
 
+@bounded(P, "halfplane_point_at_infinity", functions=F_ALL + ["geometry_tools/hyperbolic.py:poincare_to_halfspace"],
+         note="half-plane drawings of objects with a vertex / endpoint exactly at the model's point at infinity: edges to infinity are vertical rays")
+def halfplane_point_at_infinity(tier, rng, rep):
+    import matplotlib
+    matplotlib.use("Agg")
+    import matplotlib.pyplot as plt
+    from matplotlib.patches import PathPatch
+    from geometry_tools import hyperbolic as h, drawtools
+    N = 40 if tier == 'thorough' else 10
+    rep.rule = ("half-plane model, identity transform: polygons with one vertex at the ideal point (1,1,0) = infinity and 2..4 further interior / ideal vertices; geodesics and segments "
+                "from infinity to an ideal / interior point; every path point must lie on the geodesic between consecutive finite vertices or, for the two edges to infinity, on the "
+                "vertical line above the adjacent vertex, and the path must leave the view at the top on both of them")
+    rep.bound = f"{N} rounds"
+    inf = np.array([1.0, 1.0, 0.0])
+
+    def hs(x):      # half-plane coordinates of a finite point given in projective coordinates
+        return np.asarray(h.Point(np.array(x, dtype=float)).coords("halfspace"), dtype=float)
+
+    def flat(patch):
+        polys = patch.get_path().to_polygons(closed_only=False)
+        return polys
+
+    def on_finite_edge(q, a, b, tol):
+        if abs(a[0] - b[0]) < 1e-12:
+            return abs(q[0] - a[0]) <= tol and min(a[1], b[1]) - tol <= q[1] <= max(a[1], b[1]) + tol
+        c = (b @ b - a @ a) / (2 * (b[0] - a[0]))
+        r = np.hypot(a[0] - c, a[1])
+        # the flattened Bezier approximation of the arc is coarse (a few chords per arc): 3% of the radius
+        return abs(np.hypot(q[0] - c, q[1]) - r) <= 3e-2 * r + tol and min(a[0], b[0]) - tol <= q[0] <= max(a[0], b[0]) + tol
+
+    for t in range(N):
+        m = int(rng.integers(2, 5))
+        ang = np.sort(rng.uniform(0.6, 2 * np.pi - 0.6, m))          # directions away from angle 0 (= infinity)
+        rad = np.where(rng.random(m) < 0.4, 1.0, rng.uniform(0.3, 0.9, m))       # some ideal vertices
+        fin = np.stack([np.ones(m), rad * np.cos(ang), rad * np.sin(ang)], axis=-1)
+        V = np.concatenate([inf[None], fin], axis=0)
+        inp = {"projective_vertices": V.tolist()}
+
+        def body():
+            fig, ax = plt.subplots(figsize=(3, 3))
+            try:
+                dr = drawtools.HyperbolicDrawing(model="halfspace", fig=fig, ax=ax)
+                top = ax.get_ylim()[1]
+                vf = np.array([hs(x) for x in fin])
+                n0 = len(ax.patches)
+                dr.draw_polygon(h.Polygon(h.Point(V.copy())))
+                if len(ax.patches) != n0 + 1 or not isinstance(ax.patches[-1], PathPatch):
+                    rep.fail("polygon_artist_is_a_path", f"{len(ax.patches) - n0} patches", inp); return
+                polys = flat(ax.patches[-1])
+                if len(polys) != 1:
+                    rep.fail("one_continuous_path", f"{len(polys)} pieces", inp); return
+                pts = polys[0]
+                tol = 2e-3 * (1 + np.max(np.abs(vf)))
+                for q in pts:
+                    ok = any(on_finite_edge(q, vf[i], vf[i + 1], tol) for i in range(m - 1))
+                    ok = ok or any(abs(q[0] - v_[0]) <= tol and q[1] >= v_[1] - tol for v_ in (vf[0], vf[-1]))
+                    if not ok:
+                        rep.fail("path_points_on_edges", f"path point {q.tolist()} is on no edge (finite vertices {vf.tolist()})", inp); return
+                for v_ in (vf[0], vf[-1]):
+                    if not any(abs(q[0] - v_[0]) <= tol and q[1] >= top for q in pts):
+                        rep.fail("edge_to_infinity_is_a_vertical_ray", f"no path point above the view on x = {v_[0]}", inp); return
+                for v_ in vf:
+                    if not (np.min(np.linalg.norm(pts - v_, axis=1)) <= tol):
+                        rep.fail("visits_vertices", f"{v_.tolist()}", inp); return
+                # geodesic / segment from infinity to the first finite vertex
+                for kind in ("geodesic", "segment"):
+                    tgt = fin[0] if kind == "segment" or rad[0] == 1.0 else np.array([1.0, np.cos(ang[0]), np.sin(ang[0])])
+                    obj = h.Segment(h.Point(inf.copy()), h.Point(tgt.copy())) if kind == "segment" else h.Geodesic(h.IdealPoint(inf.copy()), h.IdealPoint(tgt.copy()))
+                    n1 = len(ax.patches)
+                    dr.draw_geodesic(obj)
+                    new = ax.patches[n1:]
+                    if len(new) != 1 or not isinstance(new[0], PathPatch):
+                        rep.fail("geodesic_to_infinity_is_a_vertical_line", f"{[type(a).__name__ for a in new]}", {**inp, "kind": kind}); return
+                    w = hs(tgt)
+                    gp = np.concatenate(flat(new[0]), axis=0)
+                    if not np.all(np.abs(gp[:, 0] - w[0]) <= tol) or not np.any(gp[:, 1] >= top) or not (np.min(gp[:, 1]) <= w[1] + tol) or np.any(gp[:, 1] < w[1] - tol):
+                        rep.fail("geodesic_to_infinity_is_a_vertical_line", f"{kind}: path {gp.tolist()} vs the vertical ray above {w.tolist()}", {**inp, "kind": kind}); return
+            finally:
+                plt.close(fig)
+        rep.attempt("drawing_runs", inp, body)
+        rep.case(key=(t,), nontrivial=True, sample=inp if t == 0 else None)
+        if len(rep.failures) >= 3:
+            return
+
+
 @bounded(P, "projective_artists", functions=F_ALL, note="projective points, segments, polygons in every affine chart after the drawing transform")
 def projective_artists(tier, rng, rep):
     import matplotlib
